@@ -15,13 +15,14 @@ core.use_repo()
 RULE = ("(1) EXHAUSTIVE sweep: every Unicode code point (and, for the single-byte encodings, every byte) that the repository's input "
         "filter accepts and the encoding can represent, at four positions (c, ac, cb, acb) plus space-padded variants, is written "
         "by the real calculate_and_save_counter and read back by the real guesser loader and the real scorer loader, in batches with "
-        "bisection on mismatch; files of 999..10001 lines are round-tripped as well. (2) Hypothesis-generated training lists x 5 encodings through the real trainer: value -> probability "
+        "bisection on mismatch; files of 999..10001 lines are round-tripped as well. (2) Hypothesis-generated training lists x 11 encodings (utf-8-sig among them: through the loaders that can read it, see assumptions) through the real trainer: value -> probability "
         "computed from the trainer's own counters must equal the flattened groups of the real PcfgGrammar and the real "
         "PCFGPasswordScorer tables (exact float equality - the writer uses repr); base structures likewise; the trainer's OMEN "
         "IP/CP/LN levels and alphabet must equal what the guesser's load_rules and the scorer's OmenScorer load; config.ini file "
         "lists must equal the directory listings. Non-trivial = value with a non-ASCII or whitespace character, or a ruleset with "
         ">=3 length files; distinct = code point / hash of (list, options).")
-ASSUMPTIONS = ["supported encodings are the ASCII-compatible ones (utf-8, ascii, latin-1, cp1251, cp1252)",
+ASSUMPTIONS = ["supported encodings are the ASCII-compatible ones (utf-8, ascii, latin-1, cp1251, cp1252, koi8-r, iso-8859-2/15)",
+               "utf-8-sig: PcfgGrammar as a whole cannot load such a ruleset on the unchanged tree (omen_keyspace.txt); the guesser's load_grammar and load_rules and the scorer's loaders can, and only those are compared for it",
                "a run in which the trainer does not complete is skipped and counted"]
 
 _DIR = None
@@ -261,7 +262,22 @@ def prop(case, rec):
         # the ruleset after a line-end conversion / hand edit of its files (CRLF, last line without terminator)
         rsmodel.restyle(out, case['file_style'])
         rec.cls('trained_ruleset_restyled_' + case['file_style'].get('eol', 'lf'))
-    g = guard(case, guesser.load, out)
+    if enc == 'utf-8-sig':
+        # an encoding with a byte order mark (what chardet reports for a list saved by a Windows editor): PcfgGrammar as a whole
+        # cannot load such a ruleset on the unchanged tree (omen_keyspace.txt, see DESIGN 9.7), but the guesser's grammar loader,
+        # its OMEN loader and the scorer's loaders can - those are held to the property
+        import types
+        from lib_guesser.grammar_io import load_grammar as g_load_grammar
+        from lib_guesser.omen.input_file_io import load_rules as g_load_omen
+        with core.quiet():
+            gg, gbase, _info = guard(case, g_load_grammar, 'T', out, guesser.VERSION, False, False, 'Grammar')
+            og_ = {}
+            if not guard(case, g_load_omen, os.path.join(out, 'Omen'), og_):
+                raise Violation('omen_load_failed', "the guesser's OMEN loader could not read a ruleset the trainer just wrote", case)
+        g = types.SimpleNamespace(grammar=gg, base=gbase, omen_grammar=og_)
+        rec.cls('encoding_with_byte_order_mark')
+    else:
+        g = guard(case, guesser.load, out)
     sc = PCFGPasswordScorer(limit=0)
     with core.quiet():
         if not guard(case, s_load_grammar, sc, out):
@@ -355,7 +371,7 @@ def prop(case, rec):
 @st.composite
 def cases(draw):
     from .c03 import in_domain
-    enc = draw(st.sampled_from(['utf-8', 'utf-8', 'ascii', 'latin-1', 'cp1251', 'cp1252', 'latin-1', 'cp1251', 'iso-8859-15', 'iso-8859-2', 'koi8-r']))
+    enc = draw(st.sampled_from(['utf-8', 'utf-8', 'ascii', 'latin-1', 'cp1251', 'cp1252', 'latin-1', 'cp1251', 'iso-8859-15', 'iso-8859-2', 'koi8-r', 'utf-8-sig']))
     n = draw(st.integers(1, 14))
     entries, seen = [], set()
     from .c19 import valid_password, encodable
@@ -366,9 +382,9 @@ def cases(draw):
         seen.add(p)
         entries.append([p, draw(st.sampled_from([1, 1, 2, 3, 5, 6]))])
     base = [['password1', 6], ['Monkey12', 5], ['iloveyou', 5], ['love2019!', 2], [' lead trail ', 2]]
-    if enc in ('utf-8', 'cp1251'):
+    if enc in ('utf-8', 'cp1251', 'utf-8-sig'):
         base += [['Пароль12', 3], ['привет!', 2]]
-    if enc in ('utf-8', 'latin-1', 'cp1252'):
+    if enc in ('utf-8', 'latin-1', 'cp1252', 'utf-8-sig'):
         base += [['Mañana#1', 2], ['straße99', 2], ['café§', 1]]
     if enc == 'iso-8859-15':
         base += [['100\u20ac', 2], ['c\u0153ur1', 2], ['\u0160koda12', 1]]
